@@ -284,11 +284,11 @@ def revert_mutants(out_root, index):
         # F5a: after F4/F5b no class drops subdomains any more, so the
         # warning it repairs is unreachable and its revert is unobservable
         index.append({"prop": d["property"], "name": name, "file": "(revert)",
-                      # F22 needs a particular small mesh and a large
-                      # marked set (1 of 60000 thorough runs): a quick run
-                      # may or may not meet it
+                      # F23 needs an exact tie after rounding on a mesh
+                      # of size 1000 (2 of 60000 thorough runs): a quick
+                      # run may or may not meet it
                       "expect": "clean" if d.get("tag") == "F5a"
-                      else "rare" if d.get("tag") in ()
+                      else "rare" if d.get("tag") in ("F23",)
                       else "violation", "note": d["what"]})
 
 
